@@ -8,13 +8,16 @@ import (
 	"fmt"
 	"math/big"
 	"strings"
+	"sync"
 	"testing"
 	"time"
 
+	ethereum "github.com/ethereum/go-ethereum"
 	"github.com/ethereum/go-ethereum/accounts/abi/bind"
 	"github.com/ethereum/go-ethereum/accounts/abi/bind/backends"
 	"github.com/ethereum/go-ethereum/common"
 	"github.com/ethereum/go-ethereum/core"
+	"github.com/ethereum/go-ethereum/core/types"
 	"github.com/ethereum/go-ethereum/crypto"
 	"github.com/vipnode/vipnode-contract/go/vipnodepool"
 	"github.com/vipnode/vipnode/v2/pool/payment"
@@ -27,6 +30,7 @@ import (
 
 type chainFixture struct {
 	backend  *backends.SimulatedBackend
+	provider *harnessProvider
 	contract *vipnodepool.VipnodePool
 	addr     common.Address
 	operator ident
@@ -36,9 +40,88 @@ type chainFixture struct {
 	pay      *payment.PaymentService
 }
 
+// harnessProvider is the RPC provider the proxy talks to: the simulated chain, optionally answering "pending" calls
+// from the latest block (many public providers do), and with the delivery of contract events under harness control
+// (a subscription delivers events some time after the block; the harness can hold them back and release them at a
+// chosen point, in order).
+type harnessProvider struct {
+	*backends.SimulatedBackend
+	pendingIsLatest bool
+	mu              sync.Mutex
+	hold            bool
+	queue           []types.Log
+	forwarded       int
+	out             chan<- types.Log
+}
+
+func (p *harnessProvider) PendingCallContract(ctx context.Context, call ethereum.CallMsg) ([]byte, error) {
+	if p.pendingIsLatest {
+		return p.SimulatedBackend.CallContract(ctx, call, nil)
+	}
+	return p.SimulatedBackend.PendingCallContract(ctx, call)
+}
+
+func (p *harnessProvider) SubscribeFilterLogs(ctx context.Context, q ethereum.FilterQuery, ch chan<- types.Log) (ethereum.Subscription, error) {
+	in := make(chan types.Log, 256)
+	sub, err := p.SimulatedBackend.SubscribeFilterLogs(ctx, q, in)
+	if err != nil {
+		return nil, err
+	}
+	p.mu.Lock()
+	p.out = ch
+	p.mu.Unlock()
+	go func() {
+		for {
+			select {
+			case l := <-in:
+				p.mu.Lock()
+				if p.hold {
+					p.queue = append(p.queue, l)
+					p.mu.Unlock()
+					continue
+				}
+				p.forwarded++
+				p.mu.Unlock()
+				ch <- l
+			case <-sub.Err():
+				return
+			}
+		}
+	}()
+	return sub, nil
+}
+
+func (p *harnessProvider) setHold() {
+	p.mu.Lock()
+	p.hold = true
+	p.mu.Unlock()
+}
+
+func (p *harnessProvider) holding() bool {
+	p.mu.Lock()
+	defer p.mu.Unlock()
+	return p.hold
+}
+
+// release hands the held events to the subscriber, in order, and gives it a moment to apply them.
+func (p *harnessProvider) release() int {
+	time.Sleep(3 * time.Millisecond) // let events of the last block reach the queue
+	p.mu.Lock()
+	q := p.queue
+	out := p.out
+	p.queue = nil
+	p.hold = false
+	p.mu.Unlock()
+	for _, l := range q {
+		out <- l
+	}
+	time.Sleep(3 * time.Millisecond)
+	return len(q)
+}
+
 func eth(n int64) *big.Int { return new(big.Int).Mul(big.NewInt(n), big.NewInt(1e18)) }
 
-func newChainFixture(t interface{ Fatalf(string, ...interface{}) }, fee string, min *big.Int) *chainFixture {
+func newChainFixture(t interface{ Fatalf(string, ...interface{}) }, fee string, min *big.Int, pendingIsLatest bool) *chainFixture {
 	f := &chainFixture{operator: walletIdent(3), wallets: []ident{walletIdent(0), walletIdent(1)}}
 	alloc := core.GenesisAlloc{common.HexToAddress(f.operator.addr): {Balance: eth(1000)}}
 	for _, w := range f.wallets {
@@ -53,7 +136,8 @@ func newChainFixture(t interface{ Fatalf(string, ...interface{}) }, fee string, 
 	f.backend.Commit()
 	f.addr, f.contract = addr, c
 	f.st = memory.New()
-	cp, err := payment.ContractPayment(f.st, addr, f.backend, bind.NewKeyedTransactor(f.operator.key))
+	f.provider = &harnessProvider{SimulatedBackend: f.backend, pendingIsLatest: pendingIsLatest}
+	cp, err := payment.ContractPayment(f.st, addr, f.provider, bind.NewKeyedTransactor(f.operator.key))
 	if err != nil {
 		t.Fatalf("ContractPayment: %v", err)
 	}
@@ -86,6 +170,14 @@ func (f *chainFixture) onChainDeposit(a string) *big.Int {
 	return r.Balance
 }
 
+func (f *chainFixture) timeLocked(a string) bool {
+	r, err := f.contract.Accounts(nil, common.HexToAddress(a))
+	if err != nil {
+		panic(err)
+	}
+	return r.TimeLocked.Sign() != 0
+}
+
 // waitProxyDeposit waits until the proxy's view of the deposit equals the chain (the proxy follows Balance events).
 func (f *chainFixture) waitProxyDeposit(a string) (*big.Int, bool) {
 	want := f.onChainDeposit(a)
@@ -107,7 +199,7 @@ func (f *chainFixture) waitProxyDeposit(a string) (*big.Int, bool) {
 
 func TestC07Contract(t *testing.T) {
 	rec := vt.For("C07")
-	rec.Rule("real proxy and settlement: payment.ContractPayment over the vipnode pool contract deployed on go-ethereum's simulated chain (operator key, wallets with funds), real PaymentService with generated fee and minimum; rules: on-chain deposit (addBalance + block), credit accrual in the store, pool-funding deposits by the other wallet, withdraw (+ block), two withdrawals of one wallet before the block is mined; oracle: a withdrawal executes iff deposit+credit >= minimum (and the contract can pay), the wallet's on-chain ether grows by exactly fee(deposit+credit), its on-chain deposit and its stored credit are 0 afterwards, a repeated withdrawal pays nothing more, a refused/failed one changes nothing; non-trivial = a successful withdrawal followed by another attempt; distinct by config + op sequence")
+	rec.Rule("real proxy and settlement: payment.ContractPayment over the vipnode pool contract deployed on go-ethereum's simulated chain (operator key, wallets with funds; the provider answers pending calls from the pending state or, like many public providers, from the latest block), real PaymentService with generated fee and minimum; each wallet talks to the pool under a generated spelling of its address (EIP-55, lower-case, upper-case hex) and sometimes under a second one; rules: on-chain deposit (addBalance + block), credit accrual in the store, the owner's forceSettle (time lock), withdraw (+ block), two withdrawals of one wallet before the block is mined (same or different spelling); oracle: a withdrawal executes iff deposit+credit >= minimum (and the contract can pay), the wallet's on-chain ether grows by exactly fee(deposit+credit), its on-chain deposit and its stored credit are 0 afterwards, a repeated withdrawal pays nothing more (under another spelling: only that spelling's own credit, never the deposit again), a refused/failed one changes nothing; with a time-locked deposit a withdrawal is either refused without effect or pays deposit+credit in full; non-trivial = a successful withdrawal followed by another attempt; distinct by config + op sequence")
 	rec.Assume("the simulated chain mines a block when the harness says so; the proxy's deposit view is awaited (it follows Balance events asynchronously) before each decision that depends on it")
 	rapid.Check(t, func(rt *rapid.T) {
 		fee := rapid.SampledFrom([]string{"", "const", "prop"}).Draw(rt, "fee")
@@ -118,7 +210,8 @@ func TestC07Contract(t *testing.T) {
 		case 2:
 			min = big.NewInt(5000)
 		}
-		f := newChainFixture(rt, fee, min)
+		pendingIsLatest := rapid.Bool().Draw(rt, "pendingIsLatest")
+		f := newChainFixture(rt, fee, min, pendingIsLatest)
 		defer f.backend.Close()
 		feeOf := func(a *big.Int) *big.Int {
 			switch fee {
@@ -129,104 +222,279 @@ func TestC07Contract(t *testing.T) {
 			}
 			return new(big.Int).Set(a)
 		}
-		credit := map[string]*big.Int{}
-		for _, w := range f.wallets {
-			credit[w.addr] = new(big.Int)
+		// how each wallet spells its address towards the pool
+		spell := func(w ident, how string) string {
+			switch how {
+			case "lower":
+				return "0x" + strings.ToLower(w.addr[2:])
+			case "upper":
+				return "0x" + strings.ToUpper(w.addr[2:])
+			}
+			return w.addr
 		}
-		var hist, kinds []string
+		spellings := []string{"eip55", "lower", "upper"}
+		home := map[string]string{}
+		for _, w := range f.wallets {
+			home[w.addr] = rapid.SampledFrom([]string{"eip55", "eip55", "lower", "upper"}).Draw(rt, "spelling:"+w.name)
+		}
+		credit := map[string]*big.Int{} // by account string as sent
+		cr := func(a string) *big.Int {
+			if credit[a] == nil {
+				credit[a] = new(big.Int)
+			}
+			return credit[a]
+		}
+		var hist []string
 		fail := func(format string, a ...interface{}) {
-			rt.Fatalf("%s\nfee=%q min=%v\nhistory:\n  %s", fmt.Sprintf(format, a...), fee, min, strings.Join(hist, "\n  "))
+			rt.Fatalf("%s\nfee=%q min=%v provider answers pending from latest=%v\nhistory:\n  %s", fmt.Sprintf(format, a...), fee, min, pendingIsLatest, strings.Join(hist, "\n  "))
 		}
 		nonce := time.Now().UnixNano()
-		doWithdraw := func(w ident) error {
+		doWithdraw := func(w ident, acct string) error {
 			nonce++
-			return f.pay.Withdraw(context.Background(), mustSign(w.key, "pool_withdraw", w.addr, nonce), w.addr, nonce)
+			return f.pay.Withdraw(context.Background(), mustSign(w.key, "pool_withdraw", acct, nonce), acct, nonce)
 		}
-		paidThenAgain := false
+		// expectation for one withdrawal given the deposit it may still claim and the contract's funds
+		expect := func(dep, cred, funds *big.Int) (exec bool, pays *big.Int) {
+			total := new(big.Int).Add(dep, cred)
+			pays = feeOf(total)
+			exec = !(min != nil && total.Cmp(min) < 0) && pays.Sign() >= 0 && pays.Cmp(funds) <= 0
+			return
+		}
+		storedCredit := func(a string) *big.Int {
+			sb, _ := f.st.GetAccountBalance(store.Account(a))
+			return new(big.Int).Set(&sb.Credit)
+		}
+		// touched: the proxy may hold a cached deposit for the wallet (it was looked up, or an event of it was delivered)
+		touched := map[string]bool{}
+		release := func() int {
+			for _, w := range f.wallets {
+				touched[w.addr] = true
+			}
+			return f.provider.release()
+		}
+		paidThenAgain, otherSpelling, lockedSeen := false, false, false
 		n := rapid.IntRange(3, 10).Draw(rt, "steps")
 		for i := 0; i < n; i++ {
 			w := f.wallets[rapid.IntRange(0, 1).Draw(rt, "wallet")]
-			switch op := rapid.SampledFrom([]string{"deposit", "deposit", "accrue", "accrue", "withdraw", "withdraw", "withdrawTwice"}).Draw(rt, "op"); op {
+			acct := spell(w, home[w.addr])
+			op := rapid.SampledFrom([]string{"deposit", "deposit", "accrue", "accrue", "withdraw", "withdraw", "withdrawTwice", "withdrawTwice", "forceSettle", "lockedWithdraw"}).Draw(rt, "op")
+			if op == "lockedWithdraw" {
+				// the owner starts taking the deposit out on chain (time lock) and asks the pool for a withdrawal as well
+				if f.onChainDeposit(w.addr).Sign() == 0 {
+					if !touched[w.addr] && rapid.Bool().Draw(rt, "lockedHoldEvents") {
+						f.provider.setHold()
+					}
+					if !f.provider.holding() {
+						touched[w.addr] = true
+					}
+					opts := bind.NewKeyedTransactor(w.key)
+					opts.Value = big.NewInt(int64(rapid.SampledFrom([]int{2501, 5000, 1000000}).Draw(rt, "lockedDeposit")))
+					if _, err := f.contract.AddBalance(opts); err != nil {
+						fail("addBalance: %v", err)
+					}
+					f.backend.Commit()
+					hist = append(hist, fmt.Sprintf("%s deposits %s on chain", w.name, opts.Value))
+				}
+				amt := big.NewInt(int64(rapid.SampledFrom([]int{1, 5000, 70000}).Draw(rt, "lockedCredit")))
+				if err := f.st.AddAccountBalance(store.Account(acct), amt); err != nil {
+					fail("accrue: %v", err)
+				}
+				cr(acct).Add(cr(acct), amt)
+				hist = append(hist, fmt.Sprintf("%s earns credit %s (account spelled %s)", w.name, amt, acct))
+				if _, err := f.contract.ForceSettle(bind.NewKeyedTransactor(w.key)); err == nil {
+					f.backend.Commit()
+					hist = append(hist, fmt.Sprintf("%s calls forceSettle on chain (time lock set: %v)", w.name, f.timeLocked(w.addr)))
+				}
+				op = "withdraw"
+			}
+			switch op {
 			case "deposit":
 				amt := big.NewInt(int64(rapid.SampledFrom([]int{1, 2499, 2500, 2501, 4999, 5000, 1000000}).Draw(rt, "amount")))
 				opts := bind.NewKeyedTransactor(w.key)
 				opts.Value = amt
+				held := ""
+				if rapid.IntRange(0, 2).Draw(rt, "holdEvents") == 0 {
+					f.provider.setHold()
+					held = " (the provider delivers the events of this block late)"
+				}
 				if _, err := f.contract.AddBalance(opts); err != nil {
 					fail("addBalance: %v", err)
 				}
 				f.backend.Commit()
-				hist = append(hist, fmt.Sprintf("%s deposits %s on chain", w.name, amt))
+				if !f.provider.holding() {
+					touched[w.addr] = true
+				}
+				hist = append(hist, fmt.Sprintf("%s deposits %s on chain%s", w.name, amt, held))
 			case "accrue":
+				a := acct
+				if rapid.IntRange(0, 5).Draw(rt, "accrueOther") == 0 {
+					a = spell(w, rapid.SampledFrom(spellings).Draw(rt, "accrueSpelling"))
+				}
 				amt := big.NewInt(int64(rapid.SampledFrom([]int{1, 2500, 5000, 70000}).Draw(rt, "credit")))
-				if err := f.st.AddAccountBalance(store.Account(w.addr), amt); err != nil {
+				if err := f.st.AddAccountBalance(store.Account(a), amt); err != nil {
 					fail("accrue: %v", err)
 				}
-				credit[w.addr].Add(credit[w.addr], amt)
-				hist = append(hist, fmt.Sprintf("%s earns credit %s", w.name, amt))
-			case "withdraw", "withdrawTwice":
-				dep, ok := f.waitProxyDeposit(w.addr)
-				if !ok {
-					fail("the proxy's deposit for %s never caught up with the chain (%v vs %s)", w.name, dep, f.onChainDeposit(w.addr))
-				}
-				total := new(big.Int).Add(dep, credit[w.addr])
-				pays := feeOf(total)
-				contractFunds := f.chainBalance(f.addr.Hex())
-				expectExec := !(min != nil && total.Cmp(min) < 0) && pays.Sign() >= 0 && pays.Cmp(contractFunds) <= 0
-				before := f.chainBalance(w.addr)
-				err := doWithdraw(w)
-				var err2 error
-				second := op == "withdrawTwice"
-				if second {
-					// the owner (or an impatient client library) asks again before the settlement transaction is mined
-					err2 = doWithdraw(w)
+				cr(a).Add(cr(a), amt)
+				hist = append(hist, fmt.Sprintf("%s earns credit %s (account spelled %s)", w.name, amt, a))
+			case "forceSettle":
+				if _, err := f.contract.ForceSettle(bind.NewKeyedTransactor(w.key)); err != nil {
+					hist = append(hist, fmt.Sprintf("%s calls forceSettle on chain -> %v", w.name, err))
+					break
 				}
 				f.backend.Commit()
-				after := f.chainBalance(w.addr)
-				got := new(big.Int).Sub(after, before)
-				hist = append(hist, fmt.Sprintf("%s withdraws (deposit %s + credit %s = %s, pays %s, contract holds %s) -> err=%v, received %s", w.name, dep, credit[w.addr], total, pays, contractFunds, err, got))
-				if classifyErr(err).Kind == "verify" {
-					fail("correctly signed withdraw refused: %v", err)
+				hist = append(hist, fmt.Sprintf("%s calls forceSettle on chain (time lock set: %v)", w.name, f.timeLocked(w.addr)))
+			case "withdraw", "withdrawTwice":
+				if rapid.IntRange(0, 4).Draw(rt, "withdrawOther") == 0 {
+					acct = spell(w, rapid.SampledFrom(spellings).Draw(rt, "withdrawSpelling"))
 				}
-				if expectExec {
-					if err != nil {
-						fail("withdrawal of %s (total %s >= minimum %v, contract can pay) failed: %v", w.name, total, min, err)
+				locked := f.timeLocked(w.addr)
+				dep := f.onChainDeposit(w.addr)
+				lateEvents := false
+				if f.provider.holding() {
+					// events are still under way: when the proxy reads the right deposit anyway (first look-up of this
+					// account: it asks the chain), the withdrawal goes ahead and the events arrive right after its first request
+					if locked && !touched[w.addr] {
+						// the proxy has never looked at this wallet: its first look-up goes to the chain
+						lateEvents = true
+					} else if b, err := f.proxy.GetAccountBalance(store.Account(acct)); !locked && err == nil && b.Deposit.Cmp(dep) == 0 {
+						lateEvents = true
+					} else {
+						n := release()
+						hist = append(hist, fmt.Sprintf("(%d late events delivered)", n))
 					}
-					if got.Cmp(pays) != 0 {
-						again := ""
-						if second {
-							again = " (two withdrawals were sent before the block was mined: the same balance must not be paid twice)"
+				}
+				if locked && touched[w.addr] {
+					// the proxy's cached view must have caught up with the chain (or it answers with the time-lock error)
+					deadline := time.Now().Add(5 * time.Second)
+					for {
+						b, err := f.proxy.GetAccountBalance(store.Account(acct))
+						if err != nil || b.Deposit.Cmp(dep) == 0 {
+							break
 						}
-						fail("wallet %s received %s on chain, must receive exactly fee(deposit+credit) = %s%s", w.name, got, pays, again)
+						if time.Now().After(deadline) {
+							fail("the proxy's deposit for %s (time-locked) never caught up with the chain (proxy %s, chain %s)", w.name, b.Deposit.String(), dep)
+						}
+						time.Sleep(2 * time.Millisecond)
 					}
-					credit[w.addr].SetInt64(0)
-					if d := f.onChainDeposit(w.addr); d.Sign() != 0 {
-						fail("after the withdrawal the on-chain deposit of %s is %s, want 0", w.name, d)
+				}
+				touched[w.addr] = true
+				if !locked {
+					got, ok := f.waitProxyDeposit(acct)
+					if !ok {
+						fail("the proxy's deposit for %s (account spelled %s) never caught up with the chain (proxy %v, chain %s)", w.name, acct, got, dep)
 					}
-					sb, _ := f.st.GetAccountBalance(store.Account(w.addr))
-					if sb.Credit.Sign() != 0 {
-						fail("after the withdrawal the stored credit of %s is %s, want 0", w.name, sb.Credit.String())
-					}
-					if second {
-						hist = append(hist, fmt.Sprintf("   (a second withdrawal of %s was sent before the block was mined -> err=%v)", w.name, err2))
-						paidThenAgain = true
-					}
+				}
+				second := op == "withdrawTwice"
+				acct2 := acct
+				if second && rapid.IntRange(0, 2).Draw(rt, "secondOther") == 0 {
+					acct2 = spell(w, rapid.SampledFrom(spellings).Draw(rt, "secondSpelling"))
+				}
+				funds := f.chainBalance(f.addr.Hex())
+				cred1 := new(big.Int).Set(cr(acct))
+				exec1, pays1 := expect(dep, cred1, funds)
+				before := f.chainBalance(w.addr)
+				err := doWithdraw(w, acct)
+				if lateEvents {
+					n := release()
+					hist = append(hist, fmt.Sprintf("(%d events of earlier blocks are delivered only now, after %s's withdraw request)", n, w.name))
+				}
+				var err2 error
+				if second {
+					// the owner (or an impatient client library) asks again before the settlement transaction is mined
+					err2 = doWithdraw(w, acct2)
+				}
+				f.backend.Commit()
+				got := new(big.Int).Sub(f.chainBalance(w.addr), before)
+				hist = append(hist, fmt.Sprintf("%s withdraws as %s (deposit %s%s + credit %s, would pay %s, contract holds %s) -> err=%v", w.name, acct, dep, map[bool]string{true: " TIME-LOCKED", false: ""}[locked], cred1, pays1, funds, err))
+				if second {
+					hist = append(hist, fmt.Sprintf("   and again as %s before the block is mined (own credit %s) -> err=%v; received %s in total", acct2, cr(acct2), err2, got))
 				} else {
-					if got.Sign() != 0 {
-						fail("withdrawal of %s must not execute (total %s, minimum %v, pays %s, contract holds %s) but the wallet received %s", w.name, total, min, pays, contractFunds, got)
+					hist = append(hist, fmt.Sprintf("   received %s", got))
+				}
+				if classifyErr(err).Kind == "verify" || classifyErr(err2).Kind == "verify" {
+					fail("correctly signed withdraw refused: %v / %v", err, err2)
+				}
+				if locked {
+					lockedSeen = true
+					// a time-locked deposit: the request is either refused without any effect, or carried out in full
+					if err != nil || (second && err2 != nil && got.Sign() == 0) {
+						if err != nil && got.Sign() != 0 && !second {
+							fail("withdrawal with a time-locked deposit returned %v but the wallet received %s", err, got)
+						}
 					}
-					sb, _ := f.st.GetAccountBalance(store.Account(w.addr))
-					if sb.Credit.Cmp(credit[w.addr]) != 0 {
-						fail("refused/failed withdrawal changed the stored credit of %s: %s -> %s", w.name, credit[w.addr], sb.Credit.String())
+					if err == nil && !second {
+						if exec1 && got.Cmp(pays1) != 0 {
+							fail("withdrawal with a time-locked deposit was carried out but paid %s; the balance is deposit %s + credit %s, so exactly %s is owed (and the deposit is gone: on-chain deposit now %s)", got, dep, cred1, pays1, f.onChainDeposit(w.addr))
+						}
 					}
-					if d := f.onChainDeposit(w.addr); d.Cmp(dep) != 0 {
-						fail("refused/failed withdrawal changed the on-chain deposit of %s: %s -> %s", w.name, dep, d)
+					if err != nil && !second {
+						if d := f.onChainDeposit(w.addr); d.Cmp(dep) != 0 {
+							fail("refused withdrawal (time lock) changed the on-chain deposit: %s -> %s", dep, d)
+						}
+						if sc := storedCredit(acct); sc.Cmp(cred1) != 0 {
+							fail("refused withdrawal (time lock) changed the stored credit: %s -> %s", cred1, sc)
+						}
 					}
+					// resynchronise the model with whatever happened
+					for _, a := range []string{acct, acct2} {
+						credit[a] = storedCredit(a)
+					}
+					break
+				}
+				// expectation for the second request: the deposit was claimed by the first if that executed
+				exec2, pays2 := false, new(big.Int)
+				if second {
+					dep2, funds2, cred2 := dep, funds, new(big.Int).Set(cr(acct2))
+					if exec1 {
+						dep2 = new(big.Int)
+						funds2 = new(big.Int).Sub(funds, pays1)
+						if acct2 == acct {
+							cred2 = new(big.Int)
+						}
+					}
+					exec2, pays2 = expect(dep2, cred2, funds2)
+					if acct2 != acct {
+						otherSpelling = true
+					}
+				}
+				want := new(big.Int)
+				if exec1 {
+					want.Add(want, pays1)
+				}
+				if exec2 {
+					want.Add(want, pays2)
+				}
+				if exec1 && err != nil {
+					fail("withdrawal of %s (deposit %s + credit %s >= minimum %v, contract can pay) failed: %v", w.name, dep, cred1, min, err)
+				}
+				if got.Cmp(want) != 0 {
+					fail("wallet %s received %s on chain, must receive exactly %s (first request: executes=%v pays %s; second: executes=%v pays %s) - a deposit or credit was paid twice, or not in full", w.name, got, want, exec1, pays1, exec2, pays2)
+				}
+				if exec1 {
+					credit[acct] = new(big.Int)
+				}
+				if exec2 {
+					credit[acct2] = new(big.Int)
+				}
+				wantDep := dep
+				if exec1 || exec2 {
+					wantDep = new(big.Int)
+				}
+				if d := f.onChainDeposit(w.addr); d.Cmp(wantDep) != 0 {
+					fail("after the withdrawal(s) the on-chain deposit of %s is %s, want %s", w.name, d, wantDep)
+				}
+				for _, a := range []string{acct, acct2} {
+					if sc := storedCredit(a); sc.Cmp(cr(a)) != 0 {
+						fail("after the withdrawal(s) the stored credit of account %s is %s, want %s", a, sc, cr(a))
+					}
+				}
+				if exec1 && second {
+					paidThenAgain = true
 				}
 			}
-			kinds = append(kinds, "op")
 		}
-		rec.Case(fmt.Sprintf("chain|%s|%v|%v", fee, min, hist), paidThenAgain, []string{"contract", fmt.Sprintf("contract:second-withdraw:%v", paidThenAgain)}, func() interface{} {
-			return map[string]interface{}{"kind": "real contract proxy on a simulated chain", "fee": fee, "withdraw_min": fmt.Sprint(min), "history": hist}
+		rec.Case(fmt.Sprintf("chain|%s|%v|%v|%v", fee, min, pendingIsLatest, hist), paidThenAgain, []string{"contract", fmt.Sprintf("contract:second-withdraw:%v", paidThenAgain), fmt.Sprintf("contract:second-under-other-spelling:%v", otherSpelling), fmt.Sprintf("contract:time-locked-withdraw:%v", lockedSeen), fmt.Sprintf("contract:pending-is-latest:%v", pendingIsLatest)}, func() interface{} {
+			return map[string]interface{}{"kind": "real contract proxy on a simulated chain", "fee": fee, "withdraw_min": fmt.Sprint(min), "provider_pending_is_latest": pendingIsLatest, "history": hist}
 		})
 	})
 }
